@@ -11,8 +11,12 @@
     specrecv <ignore 0|1> <datagram hex>                   -> some <hex> | none                   (Spec.Lan.receive)
     ping <rmcpSeq>                                         -> ok <hex> | <error tag>              (model)
     specping <rmcpSeq> <tag>                               -> <hex>
-    pong <datagram hex>                                    -> ok | <error tag>                    (model)
+    pong <s|i> <datagram hex>                              -> ok <iana> <type> <tag> <oemIana> <oemDefined> <entities> <interactions>
+                                                              | <error tag>                       (model, check_data as shipped / intended)
     ispong <datagram hex>                                  -> 1 | 0                               (Spec.Lan.isPongFormat)
+    specpong <datagram hex>                                -> some <tag> <oemIana> <oemDefined> <entities> <interactions> | none
+                                                                                                  (Spec.Lan.parsePong)
+    mkpong <tag> <oemIana> <oemDefined> <entities> <interactions>  -> <hex>                       (Spec.Lan.pongDatagram)
 -/
 import PyIpmi.Base.Proto
 import PyIpmi.Model.Md5
@@ -80,13 +84,24 @@ def handleC05 (line : String) : String :=
     match rs.toNat?, tag.toNat? with
     | some rs, some tag => toHex (Spec.Lan.pingBytes rs tag)
     | _, _ => "bad-op"
-  | ["pong", dg] =>
+  | ["pong", v, dg] =>
     match ofHex dg with
     | some dg =>
-      match receivePong dg with
-      | .ok _ => "ok"
+      match receivePongV (if v == "s" then .asShipped else .intended) dg with
+      | .ok f => s!"ok {f.iana} {f.type} {f.tag} {f.oemIana} {f.oemDefined} {f.entities} {f.interactions}"
       | e => e.tag
     | none => "bad-op"
+  | ["specpong", dg] =>
+    match ofHex dg with
+    | some dg =>
+      match Spec.Lan.parsePong dg with
+      | some p => s!"some {p.tag} {p.oemIana} {p.oemDefined} {p.entities} {p.interactions}"
+      | none => "none"
+    | none => "bad-op"
+  | ["mkpong", tg, oi, od, en, ia] =>
+    match tg.toNat?, oi.toNat?, od.toNat?, en.toNat?, ia.toNat? with
+    | some tg, some oi, some od, some en, some ia => toHex (Spec.Lan.pongDatagram ⟨tg, oi, od, en, ia⟩)
+    | _, _, _, _, _ => "bad-op"
   | ["ispong", dg] =>
     match ofHex dg with
     | some dg => if Spec.Lan.isPongFormat dg then "1" else "0"
